@@ -60,6 +60,7 @@ class Contract:
         self.native_seeds = list(g('native_seeds', []))
         self.solver = dict(g('solver', {}))
         self.sets_if = dict(g('sets_if', {}))
+        self.sets_shape = dict(g('sets_shape', {}))
         self.source_file = None
         self.name = cls.__name__
 
